@@ -21,6 +21,10 @@ RULE = ('stub package of 6 user-defined chemicals with dyadic MW, Hf, Hvap(298.1
         'of the members and read dH of members and copies. Single-phase streams live on the reaction package or on a permuted '
         'one, may have proxies, and a pre-history of H / C reads and T / flow / phase changes (and changes back) runs through the '
         'handles before the operation is applied through one of them; the H/T solver stub may raise in chosen phases. '
+        'In 20 % of the cases the package is edited after compilation (chemical.Hf = v, refresh_constants on either package, '
+        'sometimes an edit that is not propagated); one tenth extra cases run gas streams on a Peng-Robinson package, '
+        'interleaving temperature solves with enthalpy reads of the same and of new streams, with a second, never-solved '
+        'package as the reference for the enthalpy of a state and the mixture argument dictionary observed after each step. '
         'Compared: every H read, what every handle reads as X, dH of '
         'each member (value or exception class), Hnet before, exception class, flows, T and Hnet after (1e-9 relative). '
         'non-trivial = a dH is non-zero or the call changed the stream or raised')
@@ -60,7 +64,61 @@ def env():
         assert list(ch.MW) == [float(x) for x in MW] and list(ch.Hf) == [float(x) for x in HF]
         assert [c.phase_ref for c in ch] == PREF
         _env.update(tmo=tmo, chems=ch)
+        # the same six chemicals as gases with critical constants, on TWO equation-of-state packages: the one the cases
+        # use and one on which no temperature is ever solved (reference for the enthalpy of a state)
+        from thermosteam.mixture import PRMixture
+        TC = [190., 154., 304., 126., 405., 33.]; PC = [4.6e6, 5.0e6, 7.4e6, 3.4e6, 11.3e6, 1.3e6]; OM = [0.011, 0.022, 0.225, 0.037, 0.25, -0.22]
+        gas = [tmo.Chemical(i, search_db=False, MW=float(MW[k]), Hf=float(HF[k]), Cn=float(CN[k]), Tc=TC[k], Pc=PC[k],
+                            omega=OM[k], phase='g', default=True) for k, i in enumerate(IDS)]
+        for name in ('eos_used', 'eos_fresh'):
+            chs = tmo.Chemicals(gas)
+            _env[name] = tmo.Thermo(chs, mixture=PRMixture.from_chemicals(chs))
     return _env
+
+# ------------------------------------------------------------------ edits of the package after it was compiled
+HF_VALUES = [-4096.0, -512.0, 0.0, 256.0, 1024.0, -128.0, 2048.0]
+
+def pkg_arrays(case):
+    """the chemicals' own heats of formation and the arrays of packages A and B (per chemical, in A's order) after
+    the case's edits; and whether each array is in step with the chemicals"""
+    chem = [float(x) for x in HF]; a = list(chem); b = list(chem)
+    for op in case.get('pkg_hist', []):
+        if op[0] == 'sethf': chem[op[1]] = op[2]
+        elif op[1] == 'A': a = list(chem)
+        else: b = list(chem)
+    return chem, a, b
+
+def hf_oracle(case, pkg='A'):
+    """heats of formation (per chemical, reaction order) a package must work with after the case's edits: the chemicals'
+    own values as of the last refresh_constants() of that package -- simulated here, never read from the library"""
+    chem, a, b = pkg_arrays(case)
+    return a if pkg == 'A' else b
+
+import contextlib
+@contextlib.contextmanager
+def edited_package(case):
+    if not case.get('pkg_hist'):
+        yield; return
+    e = env(); ch = e['chems']; chB = e['thermoB'].chemicals
+    try:
+        for op in case['pkg_hist']:
+            if op[0] == 'sethf': ch.tuple[op[1]].Hf = op[2]
+            elif op[1] == 'A': ch.refresh_constants()
+            else: chB.refresh_constants()
+        yield
+    finally:
+        for k, c in enumerate(ch.tuple): c.Hf = float(HF[k])
+        ch.refresh_constants(); chB.refresh_constants()
+
+def gen_pkg_hist(rng, case):
+    ops = []
+    for _ in range(rng.randint(1, 3)):
+        ops.append(['sethf', rng.randrange(N), rng.choice(HF_VALUES)])
+        if rng.random() < 0.3: ops.append(['refresh', rng.choice(['A', 'B'])])
+    if rng.random() < 0.85: ops.append(['refresh', 'A'])
+    if case.get('pkg') == 'B' and rng.random() < 0.85: ops.append(['refresh', 'B'])
+    if rng.random() < 0.1: ops.append(['sethf', rng.randrange(N), rng.choice(HF_VALUES)])    # an edit that is NOT propagated
+    return ops
 
 # ------------------------------------------------------------------ generators
 COEFS = [F(1), F(1), F(2), F(1, 2), F(3), F(3, 2), F(1, 4)]
@@ -202,6 +260,8 @@ def gen_case(rng):
         case['pkg'] = 'B' if rng.random() < 0.3 else 'A'       # the stream may live on another package than the reaction
         if case['op'] != 'dH' and not case['not_stream'] and rng.random() < 0.35:
             case['pre'], case['via'] = gen_pre(rng, case)
+    if rng.random() < 0.2:
+        case['pkg_hist'] = gen_pkg_hist(rng, case)
     if not any('plus' in r for r in case['rxns']) and rng.random() < 0.3:
         case['xhist'] = gen_xhist(rng, case)
     elif 'L' not in phases and rng.random() < 0.45:
@@ -259,9 +319,29 @@ CORPUS = [ITEM,
           _single([[None, 'Da', -1.0], [None, 'Dd', 4.0]], 'Da', 0.5, basis='mol', rebase='wt', op='isothermal')]
 WITNESSES = []
 
+def gen_eos_case(rng):
+    """gas streams on an equation-of-state package: temperature solves (adiabatic_reaction, H setter) interleaved with
+    enthalpy reads of the same and of other streams through the same mixture object"""
+    kind = rng.choice(['single', 'single', 'parallel', 'series'])
+    basis = rng.choice(['mol', 'mol', 'wt'])
+    rxns = [gen_rxn(rng, [], basis) for _ in range(1 if kind == 'single' else rng.randint(1, 3))]
+    for r in rxns: r['X'] = float(rng.choice([F(1, 8), F(1, 4), F(1, 2), F(3, 4), F(1)]))
+    reactants = {r['reactant'] for r in rxns}
+    def feed(): return [float(rng.choice(SMALL[:5] if IDS[k] in reactants else BIG)) for k in range(N)]
+    steps = []
+    for _ in range(rng.randint(2, 6)):
+        o = rng.choice(['adiabatic', 'adiabatic', 'readH', 'readH', 'setH', 'newstream', 'isothermal'])
+        if o == 'adiabatic': steps.append([o, rng.choice(QS)])
+        elif o == 'setH': steps.append([o, rng.choice([1024.0, -512.0, 65536.0])])
+        elif o == 'newstream': steps.append([o, feed(), rng.choice(TS)])
+        else: steps.append([o])
+    steps.append(['readH'])
+    return {'eos': True, 'phases': [], 'kind': kind, 'rxns': rxns, 'flows': feed(), 'T': rng.choice(TS), 'op': 'eos',
+            'Q': 0.0, 'not_stream': False, 'steps': steps}
+
 def gen_cases(rng, tier):
     n = 300 if tier == 'quick' else 5000
-    return [gen_case(rng) for _ in range(n)]
+    return [gen_case(rng) for _ in range(n)] + [gen_eos_case(rng) for _ in range(n // 10)]
 
 def search_cases(rng, tier):
     """used only after something broke: isothermal runs of sets and systems (the clause that involves every member)"""
@@ -295,6 +375,7 @@ def rxn_arg(case, spec, terms=None):
 def build_rxn(case, spec):
     tmo = env()['tmo']
     kw = dict(reactant=spec['reactant'], basis=spec['basis'], phases=''.join(case['phases']) or None)
+    if case.get('eos'): kw['chemicals'] = env()['eos_used'].chemicals
     r = tmo.Reaction(rxn_arg(case, spec), X=spec['X'], **kw)
     if spec.get('plus'):
         r = r + tmo.Reaction(rxn_arg(case, spec, spec['plus']['terms']), X=spec['plus']['X'], **kw)
@@ -458,8 +539,9 @@ def run_stream(case, obj):
         elif name == 'setflows': h.imol.data[:] = np.array(to_pkg(case, op[2]), float); pre.append(['setflows', to_pkg(case, op[2])])
         elif name == 'setphase': h.phase = op[2]; pre.append(['setphase', op[2]])
     before = state_of(s)
+    f0 = fresh_stream(case, before['mol'], before['T'], before['phase'])
     r = {'reads': reads, 'true_reads': true_reads, 'pre': pre, 'before': before, 'err': None,
-         'Hnet0': float(fresh_stream(case, before['mol'], before['T'], before['phase']).Hnet)}
+         'Hnet0': float(f0.Hnet), 'H0': float(f0.H)}
     target = handles[case.get('via', 0) % len(handles)]
     try:
         with failing_solver(s, case.get('solve_fail', [])):
@@ -474,7 +556,8 @@ def run_stream(case, obj):
         r['after'] = {'mol': [], 'T': float(s.T), 'phase': s.phase}; r['Hnet'] = 0.0
     else:
         r['after'] = state_of(s)
-        r['Hnet'] = float(fresh_stream(case, r['after']['mol'], r['after']['T'], r['after']['phase']).Hnet)
+        f1 = fresh_stream(case, r['after']['mol'], r['after']['T'], r['after']['phase'])
+        r['Hnet'] = float(f1.Hnet); r['H1'] = float(f1.H)
     return r
 
 def canon_dH(x):
@@ -483,6 +566,10 @@ def canon_dH(x):
 
 def run_impl(case):
     env()
+    with edited_package(case):
+        return run_impl_(case)
+
+def run_impl_(case):
     out = {}
     extra = {}
     try:
@@ -508,6 +595,11 @@ def run_impl(case):
         out['seen'] = {k: [fr_json(frac(x)) for x in v] for k, v in extra['seen'].items()}
     if case['op'] == 'dH':
         return out
+    if case['op'] == 'eos':
+        r = run_eos(case, obj)
+        out.update(table=[fr_json(frac(x)) for x in r['table']], mops=r['ops'], reads=[fr_json(frac(x)) for x in r['reads']],
+                   flags=r['flags'], err=None)
+        return out
     if flip_case(case):
         r = run_stream(case, obj)
         out.update(err=r['err'], err_cls=r.get('err_cls'), reads=[fr_json(frac(x)) for x in r['reads']], pre=r['pre'],
@@ -530,10 +622,51 @@ def run_impl(case):
         out['Hnet'] = fr_json(frac(s.Hnet))
     return out
 
+def run_eos(case, obj):
+    """returns the model-visible history: mixture operations (reads / solves by state number), the enthalpies read through
+    the package in use, the same states evaluated by the never-solved package, whether the mixture's argument
+    dictionary was empty after each operation, and the energy records of the solves"""
+    e = env(); tmo = e['tmo']
+    used, fresh = e['eos_used'], e['eos_fresh']
+    def stream(th, flows, T):
+        st = tmo.Stream(None, T=T, phase='g', thermo=th); st.imol.data[:] = np.array(flows, float); return st
+    s = stream(used, case['flows'], case['T'])
+    mix = s.mixture
+    table, ops, reads, flags, energy = [], [], [], [], []
+    def state():
+        st = state_of(s)
+        f = stream(fresh, st['mol'], st['T'])
+        table.append(float(f.H)); return len(table) - 1, f
+    def flag(): flags.append(len(mix._free_energy_args) == 0)
+    for step in case['steps']:
+        name = step[0]
+        if name == 'readH':
+            k, _ = state(); reads.append(float(s.H)); ops.append(['read', k]); flag()
+        elif name == 'newstream':
+            s = stream(used, step[1], step[2])
+        elif name == 'isothermal':
+            try: obj(s)
+            except Exception: pass
+        elif name in ('adiabatic', 'setH'):
+            _, f0 = state()
+            before = float(f0.H) + (float(f0.Hf) if name == 'adiabatic' else 0.0)
+            ok = True
+            try:
+                if name == 'adiabatic': obj.adiabatic_reaction(s, step[1])
+                else: s.H = float(f0.H) + step[1]
+            except Exception as ex:
+                ok = False
+            k1, f1 = state()
+            ops.append(['solve', k1, ok]); flag()
+            after = float(f1.H) + (float(f1.Hf) if name == 'adiabatic' else 0.0)
+            if ok: energy.append([name, before, step[1], after])
+            k2, _ = state(); reads.append(float(s.H)); ops.append(['read', k2]); flag()
+    return {'table': table, 'ops': ops, 'reads': reads, 'flags': flags, 'energy': energy}
+
 def flip_case(case):
     """a single-phase Stream is reacted: modelled with the H memo shared by the handles, the H setter's phase fallback and,
     for another package, the index remapping; the state is compared even after an exception"""
-    return case['op'] != 'dH' and not case['phases']
+    return case['op'] not in ('dH', 'eos') and not case['phases']
 
 import contextlib
 @contextlib.contextmanager
@@ -588,7 +721,17 @@ def cobj_after(case):
     """the object as the call sees it: after the conversion history, if there is one"""
     return f'(xhist_res {cobj(case)} {cxops(case)})' if case.get('xhist') else cobj(case)
 
-CHEM = (f'(mkchem {qlist(HF)} {qlist(MW)} {qlist(HVAP)} {qlist(HFUS)} {clist([PH[p] for p in PREF], cnat)})')
+def hf_term(case, pkg='A'):
+    """the heats-of-formation array of a package as the model derives it from the edit history"""
+    if not case.get('pkg_hist'):
+        return qlist(HF if pkg == 'A' else [HF[i] for i in ORDER_B])
+    ops = clist([f'(PSetHf {cnat(o[1])} {q(o[2])})' if o[0] == 'sethf' else ('PRefreshA' if o[1] == 'A' else 'PRefreshB')
+                 for o in case['pkg_hist']])
+    ob = clist(ORDER_B, cnat)
+    return f'({"arrA" if pkg == "A" else "arrB"} (prun {ob} (compiled {ob} {qlist(HF)}) {ops}))'
+
+def chem_term(case):
+    return f'(mkchem {hf_term(case)} {qlist(MW)} {qlist(HVAP)} {qlist(HFUS)} {clist([PH[p] for p in PREF], cnat)})' 
 
 def coq_case(case, out):
     P = max(1, len(case['phases']))
@@ -599,7 +742,7 @@ def coq_case(case, out):
         if e is None and len(v) != 1:
             return 'false'                      # dH is not a scalar: nothing the model could equal
         exp.append(f'({cerr(e)}, {q(F(v[0])) if e is None else "0"})')
-    t = f'(dHs_eqb {CHEM} {cobj_after(case)} members_of {clist(exp)})'
+    t = f'(dHs_eqb {chem_term(case)} {cobj_after(case)} members_of {clist(exp)})'
     if case.get('history'):
         dexp = []
         for e, v in out['dH_derived']:
@@ -612,13 +755,17 @@ def coq_case(case, out):
             if o[0] == 'setbasis': return f'(HSetBasis {cnat(o[1])} {cbool(o[2] == "wt")})'
             if o[0] == 'itembackwards': return f'(HItemBackwards {cnat(o[1])} {copt(o[2], cnat)} {copt(o[3], q)})'
             if o[0] == 'backwards': return f'(HBackwards {cnat(o[1])} {copt(o[2], cnat)} {copt(o[3], q)})'
-        t = (f'(dHs_hist_eqb {CHEM} {qlist(MW * P)} {cobj(case)} {clist([chop(o) for o in out["hist_ops"]])} '
+        t = (f'(dHs_hist_eqb {chem_term(case)} {qlist(MW * P)} {cobj(case)} {clist([chop(o) for o in out["hist_ops"]])} '
              f'{clist(out["hist_oks"], cbool)} {clist(exp)} {clist(dexp)})')
     if case.get('xhist'):
         seen = clist([qlist([F(x) for x in v]) for k, v in sorted(out.get('seen', {}).items())])
         t = f'({t} && xs_eqb {cobj(case)} {cxops(case)} {seen})'
     if case['op'] == 'dH':
         return t
+    if case['op'] == 'eos':
+        mops = clist([f'(MRead {cnat(o[1])})' if o[0] == 'read' else f'(MSolve {cnat(o[1])} {cbool(o[2])})' for o in out['mops']])
+        return (f'({t} && mix_eqb {qlist([F(x) for x in out["table"]])} {mops} {qlist([F(x) for x in out["reads"]])} '
+                f'{clist(out["flags"], cbool)})')
     ok = out['err'] is None
     if flip_case(case):
         def csop(o):
@@ -635,14 +782,14 @@ def coq_case(case, out):
             callf = f'(fun o => call_other {qlist(MW)} o {cnat(N)} {fwd} {bwd})'
         else:
             callf = f'(fun o => call_stream {qlist(MW)} o)'
-        th = (f'(thermal_cached_eqb {qlist(to_pkg(case, CN))} {qlist(to_pkg(case, HF))} '
+        th = (f'(thermal_cached_eqb {qlist(to_pkg(case, CN))} {hf_term(case, case.get("pkg", "A"))} '
               f'{clist([PH[p] for p in case.get("solve_fail", [])], cnat)} {cobj_after(case)} {callf} '
               f'{cbool(case["op"] == "adiabatic")} {cbool(not case["not_stream"])} (mkP {qlist(to_pkg(case, case["flows"]))} '
               f'{q(case["T"])} {cnat(PH[case.get("sphase", "l")])}) {pre} {qlist([F(x) for x in out["reads"]])} {q(case["Q"])} '
               f'{cerr(out["err"])} {qlist([F(x) for x in out["mol"]])} {q(F(out["T"]))} {cnat(PH[out["phase"]])} '
               f'{q(F(out["Hnet0"]))} {q(F(out["Hnet"]))})')
         return f'({t} && {th})'
-    th = (f'(thermal_eqb {qlist(CN * P)} {qlist(HF * P)} {qlist(MW * P)} {cobj_after(case)} {cbool(case["op"] == "adiabatic")} '
+    th = (f'(thermal_eqb {qlist(CN * P)} (tile {cnat(P)} {hf_term(case)}) {qlist(MW * P)} {cobj_after(case)} {cbool(case["op"] == "adiabatic")} '
           f'{cbool(not case["not_stream"])} (mkS {qlist(case["flows"])} {q(case["T"])}) {q(case["Q"])} {q(F(out["Hnet0"]))} '
           f'{cerr(out["err"])} {qlist([F(x) for x in out["mol"]]) if ok else "[]"} {q(F(out["T"])) if ok else "0"} '
           f'{q(F(out["Hnet"])) if ok else "0"})')
@@ -650,8 +797,8 @@ def coq_case(case, out):
 
 def coq_show(case, out):
     P = max(1, len(case['phases']))
-    return (f'(match {cobj_after(case)} with Ok o => (map (dH {CHEM}) (members_of o), '
-            f'adiabatic (stubH {qlist(CN * P)}) (stubSolve {qlist(CN * P)}) {qlist(HF * P)} true {qlist(MW * P)} o '
+    return (f'(match {cobj_after(case)} with Ok o => (map (dH {chem_term(case)}) (members_of o), '
+            f'adiabatic (stubH {qlist(CN * P)}) (stubSolve {qlist(CN * P)}) (tile {cnat(P)} {hf_term(case)}) true {qlist(MW * P)} o '
             f'(mkS {qlist(case["flows"])} {q(case["T"])}) {q(case["Q"])}) | Err e => ([], (Some e, mkS [] 0)) end)')
 
 def nontrivial(case, out):
@@ -660,6 +807,7 @@ def nontrivial(case, out):
     return bool(out.get('err')) or out.get('mol') != [fr_json(F(x)) for x in case['flows']]
 
 def classify(case, out):
+    if case.get('eos'): return ['kind:' + case['kind'], 'op:eos'] + ['eos:' + o[0] for o in out.get('mops', [])]
     if out.get('ctor_err'): return ['kind:' + case['kind'], 'ctor_error:' + out.get('ctor_cls', '?')]
     ks = ['kind:' + case['kind'], 'phases:' + (''.join(case['phases']) or 'none'), 'op:' + case['op'],
           'basis:' + (case['rxns'][0]['rebase'] or case['rxns'][0]['basis']), 'T:%g' % case['T']]
@@ -670,6 +818,7 @@ def classify(case, out):
         for t in r['terms'] + (r['plus']['terms'] if r.get('plus') else []): cnt.setdefault(t[1], set()).add(t[0])
         if any(len(v) > 1 for v in cnt.values()): ks.append('chemical-in-two-phases')
     for o in case.get('xhist', []): ks.append('xhist:' + o[0])
+    for o in case.get('pkg_hist', []): ks.append('package:' + o[0] + (o[1] if o[0] == 'refresh' else ''))
     for o in case.get('pre', []): ks.append('pre:' + o[0])
     for o, ok in zip(out.get('hist_ops', []), out.get('hist_oks', [])): ks.append('rhist:' + o[0] + (':ok' if ok else ':raise'))
     if case.get('pkg') == 'B': ks.append('stream-on-other-package')
@@ -699,7 +848,7 @@ def heat_per_reactant(case, spec, terms):
         if p is not None and p != PREF[k]:
             if (PREF[k], p) not in LAT: return None
             lat = LAT[(PREF[k], p)](k)
-        tot += (HF[k] + lat) * c / -st[r]
+        tot += (F(hf_oracle(case)[k]) + lat) * c / -st[r]
     return tot
 
 def expected_dH(case, spec, X=None, as_basis=None):
@@ -719,6 +868,11 @@ def approx(a, b, scale=1.0, tol=1e-9):
     return abs(a - b) <= tol * max(1.0, scale, abs(a), abs(b))
 
 def oracle(case):
+    env()
+    with edited_package(case):
+        return oracle_(case)
+
+def oracle_(case):
     e = env(); tmo = e['tmo']
     try:
         obj, members = build_obj(case)
@@ -757,6 +911,17 @@ def oracle(case):
                 return (f'dH-copy: a copy of member {m_} (now by {d._basis}) reports {got}, conversion x sum((Hf+latent)*stoichiometry) '
                         f'= {float(exp)} after {[o[0] for o in extra_["hist_ops"]]}')
     if case['op'] == 'dH' or case['not_stream']: return None
+    if case['op'] == 'eos':
+        r = run_eos(case, obj)
+        for o, got_, fl in zip([o for o in r['ops'] if o[0] == 'read'], r['reads'], [f for o, f in zip(r['ops'], r['flags']) if o[0] == 'read']):
+            true_ = r['table'][o[1]]
+            if not approx(got_, true_, abs(true_)):
+                return (f'eos: Stream.H of a gas stream on an equation-of-state package is {got_}; the same state evaluated by a '
+                        f'package on which no temperature was ever solved has H = {true_}')
+        for name, before, q_, after in r['energy']:
+            if not approx(after, before + q_, abs(before) + abs(q_), tol=1e-6):
+                return f'eos-{name}: enthalpy (incl. formation) after {after} != before {before} + {q_} (evaluated by the never-solved package)'
+        return None
     T_op = case['T']
     if flip_case(case):
         r = run_stream(case, obj)
@@ -765,7 +930,9 @@ def oracle(case):
                 return f'memo: Stream.H read through a handle returned {got_}, the state it was read in has H = {true_}'
         before = r['before']; T_op = before['T']
         mol0 = np.array(from_pkg(case, before['mol']), float)
-        hnet0 = r['Hnet0']; hf0 = float(np.dot(HF, mol0))
+        hfo = np.array(hf_oracle(case, case.get('pkg', 'A')), float)      # per chemical, reaction order
+        hf0 = float(np.dot(hfo, mol0))
+        hnet0 = r['H0'] + hf0                                               # independent of the library's Hf array
         scale = abs(hnet0) + abs(case['Q']) + abs(hf0)
         if case['op'] == 'adiabatic':
             if r['err']:
@@ -777,15 +944,19 @@ def oracle(case):
                 other = {'g': 'l', 'l': 'g'}.get(ph0)
                 if ph0 in fails and (other is None or other in fails): return None   # no phase left in which T can be found
                 return f'adiabatic: raised {r["err_cls"]} (stream phase {ph0}, solver unavailable in {fails})'
-            if not approx(r['Hnet'], hnet0 + case['Q'], scale):
-                return (f'adiabatic: Hnet after {r["Hnet"]} != Hnet before {hnet0} + Q {case["Q"]} (both evaluated on fresh streams; '
+            hnet1 = r['H1'] + float(np.dot(hfo, np.array(from_pkg(case, r['after']['mol']), float)))
+            if not approx(hnet1, hnet0 + case['Q'], scale):
+                return (f'adiabatic: Hnet after {hnet1} != Hnet before {hnet0} + Q {case["Q"]} (H from fresh streams, Hf from the '
+                        f'chemicals as of the last refresh; '
                         f'history before the call: {[o[0] for o in r["pre"]]}, package {case.get("pkg", "A")})')
             return None
         s = fresh_stream(case, before['mol'], before['T'], before['phase'])
         shadow_flows, shadow_phase = mol0, before['phase']
     else:
         s = make_stream(case)
-        hnet0 = s.Hnet; hf0 = s.Hf; mol0 = np.asarray(s.imol.data.to_array(), float).reshape(-1).copy()
+        hfo = np.array(hf_oracle(case) * P, float)
+        mol0 = np.asarray(s.imol.data.to_array(), float).reshape(-1).copy()
+        hf0 = float(np.dot(hfo, mol0)); hnet0 = s.H + hf0
         scale = abs(hnet0) + abs(case['Q']) + abs(hf0)
         if case['op'] == 'adiabatic':
             try:
@@ -794,8 +965,9 @@ def oracle(case):
                 if type(ex).__name__ == 'InfeasibleRegion': return None
                 if not mol0.any() or not np.asarray(s.imol.data.to_array()).any(): return None   # nothing to heat
                 return f'adiabatic: raised {type(ex).__name__}: {ex}'
-            if not approx(s.Hnet, hnet0 + case['Q'], scale):
-                return f'adiabatic: Hnet after {s.Hnet} != Hnet before {hnet0} + Q {case["Q"]}'
+            hnet1 = s.H + float(np.dot(hfo, np.asarray(s.imol.data.to_array(), float).reshape(-1)))
+            if not approx(hnet1, hnet0 + case['Q'], scale):
+                return f'adiabatic: Hnet after {hnet1} != Hnet before {hnet0} + Q {case["Q"]} (Hf from the chemicals as of the last refresh)'
             return None
     # isothermal: follow the reactant fed to every member on a shadow stream
     if flip_case(case):
@@ -850,7 +1022,7 @@ def oracle(case):
             if p is not None and p != PREF[IDS.index(i)]:
                 lat[ph.index(p) * N + IDS.index(i)] = float(LAT[(PREF[IDS.index(i)], p)](IDS.index(i)))
     kirchhoff = float(np.dot(np.array(h) - np.array(lat), mol1 - mol0))
-    d = s.Hnet - hnet0
+    d = s.H + float(np.dot(hfo, mol1)) - hnet0
     if T_op == TREF and not ph:
         if not approx(d, heat, scale):
             return f'isothermal: at the reference state Hnet changed by {d}, heat of reaction x reactant fed = {heat}'
